@@ -69,6 +69,24 @@ func decode3(level spec.Level, s string, nilRecv bool) (obj3, error) {
 	return o, err
 }
 
+// refreshed re-derives the lower-level pointers from the top-level object through the
+// accessors. The harness must not assume that an accessor result taken earlier still
+// aliases the object (an implementation may hand out copies): whenever the top-level object
+// may have changed since the pointers were taken, they are taken again.
+func (o obj3) refreshed() obj3 {
+	switch o.level {
+	case spec.Temporal:
+		if o.T != nil {
+			o.B = o.T.BaseMetrics()
+		}
+	case spec.Environmental:
+		if o.E != nil {
+			o.T, o.B = o.E.TemporalMetrics(), o.E.BaseMetrics()
+		}
+	}
+	return o
+}
+
 func (o obj3) isNil() bool {
 	switch o.level {
 	case spec.Base:
@@ -119,6 +137,20 @@ func decode2(level spec.Level, s string, nilRecv bool) (obj2, error) {
 		}
 	}
 	return o, err
+}
+
+func (o obj2) refreshed() obj2 {
+	switch o.level {
+	case spec.Temporal:
+		if o.T != nil {
+			o.B = o.T.BaseMetrics()
+		}
+	case spec.Environmental:
+		if o.E != nil {
+			o.T, o.B = o.E.TemporalMetrics(), o.E.BaseMetrics()
+		}
+	}
+	return o
 }
 
 func (o obj2) isNil() bool {
